@@ -48,7 +48,13 @@ def check_cell(ctx, cell, case, chan=None, chk=None, rc=None):
     cell = cell or {"channel": ch, "alphabet": alphabet, "dtype": dtype, "erasure_symbol": "default" if es is None else "custom"}
     rng = np.random.RandomState(case.get("seed", ctx.seed))
     c = chan if chan is not None else make(ch, p, es)
-    x, bits = gen_input(alphabet, dtype, shape, rng)
+    if case.get("noncontiguous") and len(shape) >= 2:
+        # the same kind of input as a dense but non-contiguous tensor (a transposed / permuted view)
+        x, bits = gen_input(alphabet, dtype, shape[::-1], rng)
+        x = x.permute(*reversed(range(len(shape))))
+        cell = {**cell, "layout": "permuted_view"}
+    else:
+        x, bits = gen_input(alphabet, dtype, shape, rng)
     x0 = x.clone()
     ok, y = ctx.call(lambda: c(x), "C12.raises", cell, rc, checker=chk)
     if not ok:
@@ -160,6 +166,8 @@ def unit_exact(ctx, channel):
                 for shape in shapes:
                     for es in ((None, 2.0, 0.5) if channel == "bec" else (None,)):
                         check_cell(ctx, None, {"channel": channel, "p": p, "alphabet": alphabet, "dtype": dtype, "shape": list(shape), "erasure_symbol": es, "seed": ctx.seed + len(shape)})
+                        if len(shape) >= 2 and dtype == "float32":
+                            check_cell(ctx, None, {"channel": channel, "p": p, "alphabet": alphabet, "dtype": dtype, "shape": list(shape), "erasure_symbol": es, "seed": ctx.seed + len(shape), "noncontiguous": True})
 
 
 def unit_stat(ctx, channel, p, alphabet, n_total):
@@ -167,6 +175,9 @@ def unit_stat(ctx, channel, p, alphabet, n_total):
     cols = n_total // rows
     es = 2.0 if channel == "bec" else None
     check_cell(ctx, None, {"channel": channel, "p": p, "alphabet": alphabet, "dtype": "float32", "shape": [rows, cols], "erasure_symbol": es, "stat": True, "seed": ctx.seed})
+    if n_total >= 1_000_000:
+        r2, c2 = 400, 2500
+        check_cell(ctx, None, {"channel": channel, "p": p, "alphabet": alphabet, "dtype": "float32", "shape": [r2, c2], "erasure_symbol": es, "stat": True, "seed": ctx.seed + 9, "noncontiguous": True})
 
 
 def unit_extremes_large(ctx, channel, alphabet, p, chunks):
